@@ -1,3 +1,164 @@
+(* C05 - property theorems only.  Each is closed by [exact] of a lemma from Proofs.v and
+   followed by Print Assumptions.  All of them quantify over EVERY schedule [tr : list label]
+   (thread steps of any connection, client packets of every class, EOF, write failures, clock
+   ticks, kicks, external closes, pushes, front steps, in any order) and over every initial
+   value [n] of the id counter. *)
 From Cell2V Require Import Common.Tac Common.ListX Common.AList C05.Model C05.Spec C05.Proofs.
-Theorem C05_stub : True. Proof. exact I. Qed.
-Print Assumptions C05_stub.
+
+(* Single latch, one step: whatever a step does, the events it posts for connection c contain
+   a Remove iff this step flipped c's latch, the close callbacks fire exactly then, and the
+   latch never opens again. *)
+Theorem C05_single_latch : forall s l c,
+  exists new,
+    posted (step s l) = posted s ++ new /\
+    count_remove c new =
+      (if negb (latch_of s c) && latch_of (step s l) c then 1 else 0)%nat /\
+    ncb_of (step s l) c =
+      ncb_of s c + (if negb (latch_of s c) && latch_of (step s l) c then 1 else 0) /\
+    (latch_of s c = true -> latch_of (step s l) c = true).
+Proof. exact single_latch_step. Qed.
+Print Assumptions C05_single_latch.
+
+(* ... hence over any schedule: Remove is posted once iff the connection was closed (by
+   whichever cause, however many at once), never twice; the same for the close callbacks. *)
+Theorem C05_remove_once : forall n tr c,
+  let s := run_from (init_with n) tr in
+  count_remove c (posted s) = (if latch_of s c then 1 else 0)%nat /\
+  ncb_of s c = (if latch_of s c then 1 else 0).
+Proof. exact remove_once. Qed.
+Print Assumptions C05_remove_once.
+
+(* Life cycle, at every moment of every schedule (guard: no id handed out twice, see
+   C05_fresh_if_few): what the owning service's handler has seen of connection c is nothing,
+   or one Add followed by messages of c in arrival order, or that followed by one Remove
+   (session already gone from the map) and one close callback - after which NOTHING of c. *)
+Theorem C05_lifecycle : forall n tr c,
+  let s := run_from (init_with n) tr in
+  f_reused (fr s) = false ->
+  life_prefix c (hview c (hlog_of s)) (arrived_of s c).
+Proof. exact lifecycle_prefix. Qed.
+Print Assumptions C05_lifecycle.
+
+(* Life cycle, end: once an end cause was signalled for c (client close, truncated or
+   illegal framing, decoder error, failed or invalid handshake, undecodable message, write
+   error, heartbeat expiry, kick, external Close - any of them, during any stage), in every
+   state where no thread of c can move any more and the owning service has drained its queue,
+   the connection IS closed, the callbacks fired exactly once, and the handler saw the complete
+   cycle: Add, exactly the messages posted before the Remove (in arrival order), Remove,
+   close callback. *)
+Theorem C05_lifecycle_end : forall n tr c,
+  let s := run_from (init_with n) tr in
+  f_reused (fr s) = false ->
+  cause_of s c = true -> stuck s c -> q s = [] ->
+  latch_of s c = true /\ ncb_of s c = 1 /\
+  exists id,
+    hview c (hlog_of s) =
+    life_open c id (msgs_before_remove c (posted s)) ++ closing c id /\
+    subseq (msgs_before_remove c (posted s)) (arrived_of s c).
+Proof. exact lifecycle_end. Qed.
+Print Assumptions C05_lifecycle_end.
+
+(* A push addressed to a removed session is dropped: the state after the push is the same
+   as if that target had not been listed - whatever else is listed. *)
+Theorem C05_push_after_remove_dropped : forall n tr c id g cs1 cs2,
+  let s := run_from (init_with n) tr in
+  f_reused (fr s) = false -> In (HRemove c id g) (hlog_of s) ->
+  step s (LPush (cs1 ++ c :: cs2)) = step s (LPush (cs1 ++ cs2)).
+Proof. exact push_after_remove. Qed.
+Print Assumptions C05_push_after_remove_dropped.
+
+(* ... and a push changes nothing but the connections whose live session it addresses:
+   other connections, the queue, the front and the clock are untouched. *)
+Theorem C05_push_frame : forall cs s c',
+  (forall c id, In c cs -> aget c (f_netid (fr s)) = Some id -> aget id (f_live (fr s)) <> Some c') ->
+  aget c' (conns (step s (LPush cs))) = aget c' (conns s).
+Proof. exact push_frame. Qed.
+Print Assumptions C05_push_frame.
+
+Theorem C05_push_quiet : forall s cs,
+  let s' := step s (LPush cs) in
+  q s' = q s /\ dn s' = dn s /\ fr s' = fr s /\ now s' = now s.
+Proof. exact push_quiet_all. Qed.
+Print Assumptions C05_push_quiet.
+
+(* Ids: the j-th session added gets the j-th value of a counter that walks 1 .. 2^32-1
+   cyclically (0 skipped) ... *)
+Theorem C05_id_sequence : forall n tr j,
+  0 <= n <= M32 -> no_setnext tr ->
+  0 <= j < Z.of_nat (length (ids_of (run_from (init_with n) tr))) ->
+  zth (ids_of (run_from (init_with n) tr)) j = nth_id n (j + 1).
+Proof. exact ids_sequence. Qed.
+Print Assumptions C05_id_sequence.
+
+(* ... so two sessions added fewer than 2^32-1 allocations apart have different ids: unique
+   among live sessions as long as fewer than 2^32-1 sessions are added during a session's life *)
+Theorem C05_ids_unique : forall n tr j1 j2,
+  0 <= n <= M32 -> no_setnext tr ->
+  0 <= j1 < j2 -> j2 < Z.of_nat (length (ids_of (run_from (init_with n) tr))) ->
+  j2 - j1 < M32 ->
+  zth (ids_of (run_from (init_with n) tr)) j1 <> zth (ids_of (run_from (init_with n) tr)) j2.
+Proof. exact ids_unique. Qed.
+Print Assumptions C05_ids_unique.
+
+(* the guard of the life-cycle theorems holds while at most 2^32-1 sessions were ever added *)
+Theorem C05_fresh_if_few : forall n tr,
+  0 <= n <= M32 -> no_setnext tr ->
+  Z.of_nat (length (ids_of (run_from (init_with n) tr))) <= M32 ->
+  f_reused (fr (run_from (init_with n) tr)) = false.
+Proof. exact fresh_if_few. Qed.
+Print Assumptions C05_fresh_if_few.
+
+(* every harness fault sequence - and the other linearisation of its races - is a schedule *)
+Theorem C05_ops_are_schedules : forall ops,
+  (exists tr, exec_ops ops = run tr) /\ (exists tr, exec_ops_alt ops = run tr).
+Proof. exact (fun ops => conj (exec_ops_reachable ops) (exec_ops_alt_reachable ops)). Qed.
+Print Assumptions C05_ops_are_schedules.
+
+(* the executable life-cycle check used on implementation traces IS the predicate above *)
+Theorem C05_monitor_exact : forall c v arrived,
+  life_b c v arrived = true <-> life_prefix c v arrived.
+Proof. exact (fun c v a => conj (life_b_sound c v a) (life_b_complete c v a)). Qed.
+Print Assumptions C05_monitor_exact.
+
+(* ---- non-vacuity ---- *)
+(* two connections; 1 handshakes, works, gets a message handled, has a second message read
+   and parked in the reader when kick, heartbeat expiry and a write failure all strike; the
+   parked message is posted after the Remove and dropped.  End state: cause, stuck, drained. *)
+Definition ex_ops : list op :=
+  [OConnect 1; OConnect 2; OSend 1 PHandshake; ORelease 1; OSend 1 PAck; ORelease 1;
+   OSend 1 (PData 7); ORelease 1; OSend 1 (PData 8); ODrain;
+   OTick 20000; OWfail 1; ORace [OKick 1; OHeartbeat 1]; OPush [1; 2]; ORelease 1; ODrain].
+
+Example C05_example_obs :
+  model_obs ex_ops =
+  Obs [HAdd 1 2; HAdd 2 3; HMsg 1 2 7; HRemove 1 2 true; HCloseCb 1 2]
+      [CFin 1 1 1 1 0 true; CFin 2 0 0 1 1 false] 3 false false.
+Proof. vm_compute. reflexivity. Qed.
+
+Example C05_example_end :
+  let s := exec_ops ex_ops in
+  f_reused (fr s) = false /\ cause_of s 1 = true /\ stuck s 1 /\ q s = [] /\
+  posted s = [EAdd 1; EAdd 2; EMsg 1 7; ERemove 1; EMsg 1 8] /\
+  arrived_of s 1 = [7; 8].
+Proof.
+  repeat split; try (vm_compute; reflexivity).
+  intro t; destruct t; vm_compute; reflexivity.
+Qed.
+
+(* the wrap, as documentation: with the counter moved (hook) so that an id is handed out
+   while still live, two live sessions share id 2, connection 1's message is handled under
+   connection 2's session and connection 1 is never removed - the guard is necessary *)
+Example C05_wrap_exhibit :
+  let s := exec_ops [OConnect 1; OSend 1 PHandshake; ORelease 1; OSend 1 PAck; ORelease 1; ODrain;
+                     OSetNext 1; OConnect 2; ODrain;
+                     OSend 1 (PData 5); ORelease 1; OClientClose 1; ORelease 1; ODrain] in
+  f_reused (fr s) = true /\
+  hlog_of s = [HAdd 1 2; HAdd 2 2; HMsg 2 2 5; HRemove 2 2 true; HCloseCb 2 2].
+Proof. vm_compute. split; reflexivity. Qed.
+
+(* the counter at the wrap: ... 2^32-1, then 1 (0 skipped), 2 *)
+Example C05_wrap_ids :
+  ids_of (run_from (init_with 4294967293)
+            [LConnect 1; LConnect 2; LConnect 3; LConnect 4; LFront; LFront; LFront; LFront])
+  = [4294967294; 4294967295; 1; 2].
+Proof. vm_compute. reflexivity. Qed.
